@@ -283,7 +283,7 @@ theorem wrapInd_mem (cs : List Con) (hcs : Sat cs v') (ho : cfg.o = .wraps) :
       exact d.refineAll_sound _ _ _ hsh hcs
     · apply foldl_refine_mem d _ cs _ _ hsh
       intro c hc hused
-      rw [sat_of_allZeroOn c (rest.map Tr.var) _ v' hused]
+      rw [sat_of_allZeroOn c (rest.map Tr.var) _ v' (allZeroOn_of_asRead cs _ c hc _ hused)]
       · exact hcs c hc
       · intro i hi; simp [mix, hi]
 
